@@ -19,6 +19,7 @@ R04.10 coordinates are stored where they can be stored: in the Sequence classes 
 R04.7 a derived sequence keeps every annotation that overlaps its view: wherever a sequence / alignment method narrows the annotation db to a coordinate ...
 R04.8 annotations travel with coordinates: when a method hands the receiver's annotation db to a sequence it has just built (`new.annotation_db = ...
 R04.9 a copy keeps its annotations whatever the strand of the receiver: in the deepcopy methods of the collection / aligned classes the annotation db of ...
+R04.11 building a collection merges annotation dbs into a copy: merged_db_collection never calls .update() on an input sequence's db.
 """
 
 from __future__ import annotations
